@@ -37,8 +37,8 @@ UNIVARIATE = ("ADWIN", "CUSUM", "PageHinkley", "CDBD")
 DETS = {"KdqTreeStreaming": 10, "KdqTreeBatch": 12, "PCACD": 6, "ADWIN": 30, "CUSUM": 30, "PageHinkley": 30, "DDM": 24, "EDDM": 24,
         "STEPD": 20, "LinearFourRates": 8, "ADWINAccuracy": 16, "HDDDM": 24, "CDBD": 20, "NNDVI": 14}
 HEAVY = ["KdqTreeStreaming", "KdqTreeBatch", "PCACD"]
-X_KINDS = ["rows2", "rows2_df", "rows2_df_other_names", "rows0", "width+1", "width-1", "df_width+1", "renamed", "multicol", "multicol_1d", "multicol_series"]
-Y_KINDS = ["y_true_multi", "y_pred_multi"]
+X_KINDS = ["rows2", "rows2_df", "rows2_df_other_names", "rows0", "width+1", "width-1", "df_width+1", "renamed", "multicol", "multicol_1d", "multicol_series", "multicol_df"]
+Y_KINDS = ["y_true_multi", "y_pred_multi", "y_true_empty", "y_pred_empty"]
 B_KINDS = ["rows1", "rows1_df", "rows1_df_other_names", "width+1", "width-1", "df_width+1", "renamed", "multicol"]
 ALL_KINDS = X_KINDS + Y_KINDS + [k for k in B_KINDS if k not in X_KINDS]
 ALL_KINDS = ALL_KINDS + ["ref:" + k for k in B_KINDS]   # the same malformed payload handed to set_reference
@@ -82,6 +82,11 @@ def gen(rng, scenario, tier):
         d = adapters.n_features(rng, name)
         n = rng.randint(28, 40) if name == "PCACD" else rng.randint(12, 28 if name == "KdqTreeStreaming" else 40)
         xs, _ = workload.mv_stream(rng, n, d, drift_rate=0.08)
+        if name == "PCACD":
+            # a strong level shift right after both windows are full, so that a drift (and the hand-over of the test
+            # window) happens inside the history
+            for j in range(22, n):
+                xs[j] = [v + 25.0 * (abs(xs[0][0]) + 1.0) for v in xs[j]]
         tags = ["list", "nd1", "nd2", "series", "df"]
         for x in xs:
             ev.append([x, rng.choice(tags), np_seed(rng)])
@@ -163,6 +168,8 @@ def bad_x(k, kind, d, nrows, names_established):
         return [0.25, 0.5]                 # one observation of two variables in a flat container
     if kind == "multicol_series" and k != "batch":
         return pd.Series([0.25, 0.5, 0.75])
+    if kind == "multicol_df" and k != "batch":
+        return pd.DataFrame([[0.25, 0.5]], columns=NAMES[:2])   # its first label is the one valid DataFrames use
     return None
 
 
@@ -262,8 +269,12 @@ def _run_single(ctx, name, cfg, k, events, pos, kind, base):
             yt, yp = (1, 0)
             if kind == "y_true_multi":
                 det.update([1, 0], yp)
-            else:
+            elif kind == "y_pred_multi":
                 det.update(yt, np.array([1, 0, 1]))
+            elif kind == "y_true_empty":
+                det.update([], yp)                      # zero observations is not "one observation" either
+            else:
+                det.update(yt, np.array([]))
         elif via_ref:
             det.set_reference(bad_x(k, kind, d, nrows, names_est))
         else:
@@ -345,6 +356,9 @@ def run(case, ctx):
         ctx.note("container:" + (e[1] if isinstance(e[1], str) else "+".join(e[1])))
     hit = False
     positions = case.get("positions") or range(len(events) + 1)
+    if case.get("positions"):
+        after_drift = [i + 1 for i, t in enumerate(base) if "drift" in t]
+        positions = sorted(set(positions) | set(after_drift))
     for pos in positions:
         kinds = _applicable(name, k, pos, events)[0]
         if k == "batch":
